@@ -212,8 +212,11 @@ class NodeExpandedDiGraph(nx.DiGraph):
                 min_cost_flow_network.add_edge(node + '.1', sink_node)
                 min_cost_flow_network[node + '.1'][sink_node].update({demands_attr: 0, capacities_attr: float('inf'), costs_attr: 0})
 
+        # Only the node edges (v.0, v.1) carry weights. A connecting edge (u.1, v.0) may have inherited an attribute of the
+        # same name from the caller's edge data; it is an ignored edge and must not constrain the flow.
+        ignored_edges = set(self._edges_to_ignore)
         for u, v, data in self.edges(data=True):
-            if self.node_flow_attr not in data:
+            if self.node_flow_attr not in data or (u, v) in ignored_edges:
                 min_cost_flow_network[u][v].update({demands_attr: 0, capacities_attr: float('inf'), costs_attr: 0})
             else:
                 min_cost_flow_network[u][v].update({demands_attr: data[self.node_flow_attr], capacities_attr: data[self.node_flow_attr], costs_attr: 0})
